@@ -129,6 +129,8 @@ func metaDoc(c model.MetaCfg, format string, t *fixture.Tree) fixture.Doc {
 	return d
 }
 
+var c02Fresh int
+
 var docArchRe = regexp.MustCompile("^\\|\\s*`([^`]+)`\\s*\\|\\s*`([^`]+)`\\s*\\|")
 
 // docArchTable parses www/docs/goarch-to-pkg.md of the tree under test.
@@ -204,7 +206,7 @@ func init() {
 		Level: "model_checking",
 		Rule: "(a) every GOARCH value of the documentation (+2 undocumented passthrough values, + mips float variants) x 5 formats x {no override, <format>.arch override}; (b) all 2*3*2*2*2*2 combinations of epoch/prerelease/metadata/release/schema/'v' prefix; " +
 			"(c) every <=1 (thorough <=2) deviation over the scalar fields with values {ASCII, Unicode, punctuation}; (d) description shapes; (e) relation lists: every single kind and every pair of the 8 kinds x {plain, versioned, same-name-twice}, and all 8 at once; (f) format extras one at a time and all together; non-linux platform; " +
-			"each built for real (fresh, and again via ConventionalFileName-then-Package on one Info) and the control metadata parsed by harness parsers (+dpkg-deb -f); non-trivial = metadata decoded; distinct = distinct (format, decoded metadata)",
+			"each built for real (fresh, again via ConventionalFileName-then-Package on one Info, and again after a differently named and versioned package using the same files was built in the same process) and the control metadata parsed by harness parsers (+dpkg-deb -f); non-trivial = metadata decoded; distinct = distinct (format, decoded metadata)",
 		Assumptions: []string{
 			"the architecture table is parsed from www/docs/goarch-to-pkg.md of the tree under test; ipk has no documented table: only override and pass-through are judged there",
 			"version syntax per format as transcribed in model/meta.go (deb/ipk [e:]v[~pre][+meta][-rel]; rpm v[~pre_][+meta] + Release + Epoch tag; apk v[_pre][-rN][-pmeta]; archlinux [e:]v+pre-pkgrel)",
@@ -276,7 +278,7 @@ func enumC02(env *engine.Env, yield func(any) bool) {
 	for _, v := range []string{"1.2.3", "v1.2.3"} {
 		for _, epoch := range []string{"", "2"} {
 			for _, pre := range []string{"", "beta1", "rc-2"} {
-				for _, meta := range []string{"", "git"} {
+				for _, meta := range []string{"", "git", "20240131.git1a2b3c", "git-abc123", "p7", "nosvn", "xhg", "cvs2"} {
 					for _, rel := range []string{"", "3"} {
 						for _, schema := range []string{"", "none"} {
 							c := baseMeta()
@@ -450,6 +452,27 @@ func checkC02(env *engine.Env, ci any) engine.Outcome {
 				judge("after-filename", buf.Bytes(), err)
 			}
 		}
+	}
+	// the same settings after ANOTHER package (other name, version, description; same files) was built
+	// in this process: nothing of that package may show up in this one
+	primer := c.Cfg
+	primer.Name, primer.Version, primer.Prerelease, primer.Metadata, primer.Epoch, primer.Release = "zzprimer", "8.7.6", "rc9", "primer", "7", "5"
+	primer.Description, primer.Maintainer, primer.Vendor, primer.Homepage, primer.License = "primer description", "Primer <p@example.com>", "primer-vendor", "https://primer.example", "Primer-License"
+	// files referenced by the configuration get fresh paths, so that nothing an earlier stage left
+	// behind for these paths can mask what the primer leaves behind
+	pd, cd := metaDoc(primer, f, t), metaDoc(c.Cfg, f, t)
+	if c.Cfg.Changelog {
+		c02Fresh++
+		cp := filepath.Join(t.Root, fmt.Sprintf("changelog-fresh-%d.yaml", c02Fresh))
+		os.WriteFile(cp, []byte(fixture.Changelog), 0o644)
+		os.Chtimes(cp, fixture.T0, fixture.T0)
+		defer os.Remove(cp)
+		pd["changelog"], cd["changelog"] = cp, cp
+	}
+	if _, err := buildYAML(pd.YAML(), f); err == nil || !platformOK {
+		out.Transitions++
+		data, err := buildYAML(cd.YAML(), f)
+		judge("after-other-package", data, err)
 	}
 	out.Key = f + ":" + strings.Join(keys, "|")
 	return out
@@ -783,7 +806,7 @@ func normRPMRel(l []string) []string {
 }
 
 func judgeChangelog(f string, c model.MetaCfg, pkg *pkgread.Pkg, viol func(sig, format string, a ...any)) {
-	notes := []string{"second release note one", "second release note two", "first release note"}
+	notes := []string{"second release note one", "second release note two", "first release note", "entry without packager"}
 	switch f {
 	case "deb":
 		p := "/usr/share/doc/" + c.Name + "/changelog.Debian.gz"
@@ -803,7 +826,12 @@ func judgeChangelog(f string, c model.MetaCfg, pkg *pkgread.Pkg, viol func(sig, 
 			viol("meta:extra-changelog:deb", "changelog.Debian.gz is not gzip: %v", err)
 			return
 		}
-		for _, n := range append(notes, "1.1.0-1", "1.0.0-1", "Jane Roe <jane@example.com>") {
+		// the Debian changelog names the package in every entry header
+		if !strings.HasPrefix(string(txt), c.Name+" (1.1.0-1)") || !strings.Contains(string(txt), "\n"+c.Name+" (1.0.0-1)") {
+			viol("meta:extra-changelog-name:deb", "changelog entries are not headed by the package name %q: %q", c.Name, trunc(string(txt), 400))
+			return
+		}
+		for _, n := range append(notes, "1.1.0-1", "1.0.0-1", "0.9.0", "Jane Roe <jane@example.com>") {
 			if !strings.Contains(string(txt), n) {
 				viol("meta:extra-changelog:deb", "changelog lacks %q: %q", n, trunc(string(txt), 400))
 				return
@@ -818,12 +846,15 @@ func judgeChangelog(f string, c model.MetaCfg, pkg *pkgread.Pkg, viol func(sig, 
 			}
 			return
 		}
-		wantTimes := []int64{time.Date(2009, 12, 8, 22, 0, 0, 0, time.UTC).Unix(), time.Date(2009, 11, 10, 23, 0, 0, 0, time.UTC).Unix()}
-		if len(times) != 2 || times[0] != wantTimes[0] || times[1] != wantTimes[1] {
+		wantTimes := []int64{time.Date(2009, 12, 8, 22, 0, 0, 0, time.UTC).Unix(), time.Date(2009, 11, 10, 23, 0, 0, 0, time.UTC).Unix(), time.Date(2009, 10, 1, 10, 0, 0, 0, time.UTC).Unix()}
+		if len(times) != 3 || times[0] != wantTimes[0] || times[1] != wantTimes[1] || times[2] != wantTimes[2] {
 			viol("meta:extra-changelog:rpm", "CHANGELOGTIME %v, configured entry dates %v", times, wantTimes)
 		}
-		if len(titles) != 2 || !strings.Contains(titles[0], "1.1.0-1") || !strings.Contains(titles[1], "1.0.0-1") || !strings.Contains(titles[0], "Jane Roe") {
+		if len(titles) != 3 || !strings.Contains(titles[0], "1.1.0-1") || !strings.Contains(titles[1], "1.0.0-1") || !strings.Contains(titles[0], "Jane Roe") || !strings.Contains(titles[2], "0.9.0") {
 			viol("meta:extra-changelog:rpm", "CHANGELOGNAME %q does not name the configured entries", titles)
+		}
+		if len(titles) == 3 && strings.TrimSpace(strings.TrimSuffix(strings.TrimSpace(titles[2]), "0.9.0")) != "-" {
+			viol("meta:extra-changelog-packager:rpm", "the third changelog entry has no packager configured, CHANGELOGNAME says %q", titles[2])
 		}
 		all := strings.Join(texts, "\n")
 		for _, n := range notes {
@@ -831,7 +862,7 @@ func judgeChangelog(f string, c model.MetaCfg, pkg *pkgread.Pkg, viol func(sig, 
 				viol("meta:extra-changelog:rpm", "CHANGELOGTEXT lacks %q: %q", n, all)
 			}
 		}
-		if len(texts) == 2 && (strings.Contains(texts[0], "first release") || strings.Contains(texts[1], "second release")) {
+		if len(texts) == 3 && (strings.Contains(texts[0], "first release") || strings.Contains(texts[1], "second release")) {
 			viol("meta:extra-changelog:rpm", "CHANGELOGTEXT entries are attached to the wrong versions: %q", texts)
 		}
 	}
